@@ -111,6 +111,11 @@ class NestedParent(WrappingQuery):
     def requires(self):
         return self.child.requires()
 
+    def field(self):
+        # The matched (parent) documents are not the documents matched by the
+        # sub-query, so they are not known to have a term in its field
+        return None
+
     def matcher(self, searcher, context=None):
         bits = searcher._filter_to_comb(self.parents)
         if not bits:
@@ -294,6 +299,11 @@ class NestedChildren(WrappingQuery):
 
     def _rewrap(self, child):
         return self.__class__(self.parents, child, boost=self.boost)
+
+    def field(self):
+        # The matched (child) documents are not the documents matched by the
+        # sub-query, so they are not known to have a term in its field
+        return None
 
     def matcher(self, searcher, context=None):
         bits = searcher._filter_to_comb(self.parents)
